@@ -244,7 +244,9 @@ func (r Relation) Join(r2 Relation, keys, leftOutput, rightOutput NamesSlice) Se
 	if rows.IsLiteralTrue() {
 		return True
 	}
-	attrs := append(leftOutput, rightOutput...)
+	// leftOutput may be r.attrs itself: never append into its spare capacity.
+	attrs := make(NamesSlice, 0, count)
+	attrs = append(append(attrs, leftOutput...), rightOutput...)
 	if len(attrs) == 2 {
 		at, val := 0, 1
 		if attrs[val] == "@" {
